@@ -692,6 +692,10 @@ fn explore_crashes(rng: &mut Rng, out: &mut Out, rec: &Arc<Recorder>, w: &Worklo
                 Err(e) => {
                     out.count("recover-failed");
                     out.fail("C03", format!("crash image does not reopen ({}) — crash after event {} of the device trace, un-synced writes: {}", e, upto, vname), &keep);
+                    if e.contains("get of recovered key failed") {
+                        // recovery indexed the key and then made its record unreadable: its own repair writes hit a live record
+                        out.fail("C04", format!("recovery damaged a record it had just indexed ({}) — crash after event {} of the device trace, un-synced writes: {}", e, upto, vname), &keep);
+                    }
                 }
                 Ok(rv) => {
                     out.count("recover-ok");
